@@ -67,6 +67,12 @@ pub fn probe(r: &mut Runner, _step: &Step) {
             continue;
         }
         let sz = pos.size.unsigned_abs();
+        // beyond the stated range (section 8): a position so large that its oracle valuation (price x size) cannot be
+        // written in the contracts' 128-bit arithmetic has no liquidation ratio the engine could compute
+        if feed_price.checked_mul(sz).is_none() || sz.checked_mul(d).is_none() {
+            r.ev.count("skip/position_beyond_128_bit_valuation");
+            continue;
+        }
         let out_whole = w.q(&va, json!({"output_amount": {"direction": pos.dir.js(), "amount": sz.to_string()}}));
         let a = mul_div(sz, eng.partial, d).unwrap_or(0);
         let out_part = w.q(&va, json!({"output_amount": {"direction": pos.dir.js(), "amount": a.to_string()}}));
